@@ -309,6 +309,8 @@ func runC12(c *Ctx) {
 	// ---- R12.3
 	c.decodeRejections("R12.3")
 	c.arityGate("R12.3")
+	c.ruleOpt("R12.5", "arity, parameter types and function are read from the method descriptor after name and alias resolution")
+	c.descriptorReadAfterResolution("R12.5")
 	c.rule("R12.4", "handler arguments are only ever produced by encoding/json or the registered parameter decoder (type mismatches cannot be bypassed)")
 	c.argumentOrigins("R12.4")
 }
